@@ -234,7 +234,20 @@ def lst1(units, R):
             cfg = cfg or fn.cfg()
             S = node_containing(cfg, c).id
             X = xchild[:-len('->child')] if xchild.endswith('->child') else xchild[:-len('.child')]
-            P = {node_containing(cfg, pa).id for (pa, pl) in _field_stores(fn, 'prev') if expr_str(strip_casts(pl['b'])) == xchild}
+            heads = {xchild}
+            # the new head may be kept in a local first (sorted = sort_list(..); X->child = sorted; sorted->prev = last)
+            par = fn.parents().get(c['id'])
+            while par is not None and par.get('k') == 'cast':
+                par = fn.parents().get(par['id'])
+            if par is not None and par.get('k') == 'bin' and par['op'] == '=' and is_ref(par['l']):
+                rv = strip_casts(par['l'])
+                if any(expr_str(strip_casts(a['l'])) == xchild and is_ref(a['r']) and strip_casts(a['r'])['d'] == rv['d'] for a in assignments(fn)):
+                    heads.add(rv['n'])
+            for dcl in fn.locals():
+                if 'init' in dcl and strip_casts(dcl['init']) is c and \
+                        any(expr_str(strip_casts(a['l'])) == xchild and is_ref(a['r']) and strip_casts(a['r'])['d'] == dcl['d'] for a in assignments(fn)):
+                    heads.add(dcl['n'])
+            P = {node_containing(cfg, pa).id for (pa, pl) in _field_stores(fn, 'prev') if expr_str(strip_casts(pl['b'])) in heads}
             names = {xchild, X}
             seen = {S}
             work = [S]
